@@ -524,7 +524,8 @@ class Schema:
 # ---- single-violation mutants (error positions) ------------------------------------------------
 
 INJECT_KINDS = ["uint65", "undefined_type", "array2d", "fieldno256", "dup_fieldno", "undefined_const",
-                "dup_name", "enum_overflow", "stray_char", "bad_escape", "int0", "fieldno0"]
+                "dup_name", "enum_overflow", "stray_char", "bad_escape", "int0", "fieldno0",
+                "div_zero", "import_in_message", "import_in_enum"]
 
 
 def inject(s: "Schema", rng: random.Random, kind: Optional[str] = None):
@@ -560,10 +561,15 @@ def inject(s: "Schema", rng: random.Random, kind: Optional[str] = None):
         elif kind == "enum_overflow" and enums:
             e = rng.choice(enums)
             at, text = e.line + 1, " " * (4 * e.depth) + "ZZ_BAD = 99999"
-        elif kind in ("undefined_const", "dup_name", "bad_escape") and tops:
+        elif kind in ("import_in_message", "import_in_enum") and (msgs if kind == "import_in_message" else enums):
+            m = rng.choice(msgs if kind == "import_in_message" else enums)
+            at, text = m.line + 1, " " * (4 * m.depth) + 'import "zz_extra.bitproto"'
+        elif kind in ("undefined_const", "dup_name", "bad_escape", "div_zero") and tops:
             t = rng.choice(tops)
             if kind == "undefined_const":
                 text = "const ZZ_BAD = NO_SUCH_CONST + 1"
+            elif kind == "div_zero":
+                text = "const ZZ_BAD = 7 / (2 - 2)"
             elif kind == "bad_escape":
                 text = 'const ZZ_BAD = "a\\qb"'
             else:
@@ -577,6 +583,8 @@ def inject(s: "Schema", rng: random.Random, kind: Optional[str] = None):
         new_lines = lines[:at - 1] + [text] + lines[at - 1:]
         texts = dict(s.texts)
         texts[f.name] = "\n".join(new_lines)
+        if kind.startswith("import_in_"):
+            texts["zz_extra.bitproto"] = "proto zz_extra\n"
         return texts, fi, at, kind, text
     return None
 
